@@ -19,6 +19,9 @@ try:
         sys.exit(2)
     subprocess.run(["rsync", "-a", "--exclude", ".git", "--exclude", "target*", "--exclude", "run", "--exclude", "replays",
                     "--exclude", "evidence", "--exclude", "seeded", "/verif/", root + "/verif/"], check=True)
+    # the harness depends on /repo by absolute path; point the scratch copy at the mutated tree instead
+    ct = root + "/verif/harness/Cargo.toml"
+    open(ct, "w").write(open(ct).read().replace('path = "/repo"', 'path = "%s/repo"' % root))
     man = json.load(open("/verif/MANIFEST.json"))
     ids = [c["property_id"] for c in man["checks"]]
     if want:
